@@ -52,6 +52,23 @@ def sami_find_lang(c):
     c.ensure("language_of_the_paragraph", r == want)
 
 
+def sami_paragraph_class(c):
+    """SAMIWriter._recreate_p_lang: a paragraph is written under the class of ITS language - the caption's own style
+    class only if that class declares a language (`lang` rule); a class that says nothing about a language, or
+    is not declared at all, never decides the language of a paragraph"""
+    from pycaption import Caption
+    styles = {"ENCC": {"lang": "en-US", "color": "white"}, "shared": {"color": "red", "font-family": "Arial"}, "empty": {}}
+    cap_style = c.pick("caption_style", [{}, {"class": "ENCC"}, {"class": "shared"}, {"class": "empty"}, {"class": "undeclared"},
+                                          {"italics": True}, {"class": "shared", "italics": True}])
+    lang = c.pick("language_being_written", ["fr-FR", "en-US"])
+    cs = CaptionSet({"fr-FR": CaptionList(), "en-US": CaptionList()}, styles={k: dict(v) for k, v in styles.items()})
+    cap = Caption(0, 10 ** 6, [CaptionNode.create_text("x")], style=dict(cap_style))
+    r = c.call(SAMIWriter._recreate_p_lang, SAMIWriter(), cap, lang, cs)
+    cls = cap_style.get("class")
+    want = cls if (cls in styles and "lang" in styles[cls]) else lang
+    c.ensure("class_of_the_paragraph_is_that_of_its_language", r == want)
+
+
 def webvtt_write_language(c, layout_clauses=False):
     """WebVTTWriter.write: exactly the captions of ONE language are converted, in order - the named one (`lang=`), the
     first one when none is named, none when the named language is absent - and the language-level layout the cues fall
@@ -280,6 +297,7 @@ def run(ctx):
     P("sami.SAMIParser._find_lang", sami_find_lang, functions=[SAMIParser._find_lang])
     # the merge of concurrent captions (legacy / single-position DFXP writers) works language by language: a language
     # without captions is left alone and receives nothing from its neighbours (contract shared with C19)
+    P("sami.SAMIWriter._recreate_p_lang", sami_paragraph_class, functions=[SAMIWriter._recreate_p_lang])
     from pycaption import WebVTTWriter
     P("webvtt.WebVTTWriter.write/language", webvtt_write_language, functions=[WebVTTWriter.write], crosscheck=False)
     import props.C19 as C19
